@@ -401,7 +401,7 @@ def work_label_schedules(chunk, st):
     import json as _json
     for archs, threads in chunk:
         def once(prefix):
-            res, s = MT.run_multi(list(archs), threads, 'json', prefix, ('connect', 'resolve'))
+            res, s = MT.run_multi(list(archs), threads, 'json', prefix, ('connect', 'resolve'), explore_main=True)
             return (res, s), s.points
         n = 0
         for prefix, (res, s), _points in sched.explore_schedules(once, 1, 400):
